@@ -26,7 +26,7 @@ SPEC_P = dict(n_species=(1, 4), n_reactions=(0, 3), max_order=3, max_cells=9, gr
 
 
 def n_cases(tier):
-    return 450 if tier == "quick" else 8000
+    return 380 if tier == "quick" else 8000
 
 
 def timeout(tier):
@@ -38,10 +38,23 @@ def generate(seed, tier, index):
     rs, ru, rk, rf = base.sub("spec"), base.sub("units"), base.sub("script"), base.sub("sched")
     kind = rs.wchoice([("gillespie", 3), ("tauleap", 2)])
     steps = (400, 2500) if kind == "gillespie" else (300, 1500)
-    e0 = C.make_script_entry(rs, ru, rk, kind, SPEC_P,
+    spec_p = SPEC_P
+    if kind == "tauleap":
+        # the power of the moment tests is set by the number of firings: more molecules, fewer diffusion-dominated systems
+        spec_p = dict(SPEC_P, n_mol=(3.0, 300.0), p_zero_D=0.4, n_reactions=(1, 3))
+    # systems in which (almost) everything is frozen or nothing can happen say nothing about rates
+    from .. import gen
+    spec = None
+    for attempt in range(25):
+        cand = gen.gen_spec(rs.sub("c07try", attempt), spec_p)
+        mm = Model(cand)
+        if mm.free.mean() >= 0.6 and mm.a0(mm.x0) > 0:
+            spec = cand
+            break
+    e0 = C.make_script_entry(rs, ru, rk, kind, spec_p,
                              {"steps": steps, "policy": "on_iteration", "isp": rk.choice(["none", "none", "auto"]),
                               "p_seed": 1.0, "p_explicit_tmax": 1.0, "nreq": (1, 2), "courant": (0.02, 0.2), "p_zero_tmax": 0.0},
-                             rich=rs.chance(0.3))
+                             rich=rs.chance(0.3), spec=spec)
     nruns = rf.randint(3, 6) if kind == "gillespie" else rf.randint(2, 5)
     scripts = []
     eps = []
@@ -169,7 +182,7 @@ def analyse_gillespie(m, tab, T, X, tmax_e, done, acc, viol, ctx):
             acc["died"] += 1
 
 
-def analyse_tauleap(m, T, X, acc):
+def analyse_tauleap(m, T, X, acc, viol=None, ctx=None):
     """per-entry conditional mean / variance martingales of the increments"""
     n = len(T)
     ns, nc = m.ns, m.nc
@@ -209,6 +222,29 @@ def analyse_tauleap(m, T, X, acc):
         var *= dt
         k4 *= dt
         d = x1 - x0
+        # exact support oracle: an entry can only go down (up) if some event with a positive propensity takes from
+        # (adds to) it: a channel that cannot fire does not fire
+        if viol is not None and not viol:
+            dec = np.zeros((ns, nc), dtype=bool)
+            inc = np.zeros((ns, nc), dtype=bool)
+            if m.nh:
+                on = ar > 0                                  # [nh, nc]
+                dec |= ((net.T < 0).astype(float) @ on.astype(float)) > 0
+                inc |= ((net.T > 0).astype(float) @ on.astype(float)) > 0
+            if len(m.faces):
+                ond = (ad > 0) & (m.f_i != m.f_j)[None, :]
+                for s in range(ns):
+                    np.logical_or.at(dec[s], m.f_i, ond[s])
+                    np.logical_or.at(inc[s], m.f_j, ond[s])
+            bad = m.free & (((d < 0) & ~dec) | ((d > 0) & ~inc))
+            acc["support_entries_checked"] = acc.get("support_entries_checked", 0) + int(m.free.sum())
+            if bad.any():
+                s, i = np.argwhere(bad)[0]
+                viol.append(dict(ctx or {}, oracle="C07.tauleap-support",
+                                 detail="tau-leap step %d: entry (species %d, cell %d) changed by %r although no event with a "
+                                        "positive propensity could %s it in the state before the step (state %s)" % (
+                                            k, s, i, float(d[s, i]), "decrease" if d[s, i] < 0 else "increase",
+                                            x0[:, i].tolist())))
         free = m.free
         # self faces (i == j) contribute nothing; they are excluded by the generator
         dev = np.where(free, d - mean, 0.0)
@@ -223,7 +259,7 @@ def analyse_tauleap(m, T, X, acc):
         #  the reaction weights are constant per species (sign of the species' total reaction drift), so that moves
         #  between free entries cancel and add no noise)
         wr = np.sign(rpart.sum(axis=1))[:, None] * fr
-        for nm, wgt in (("sc_r", wr), ("sc_d", np.sign(dpart))):
+        for nm, wgt in (("sc_r", wr), ("sc_d", np.sign(dpart)), ("sc_m", np.sign(np.where(free, mean, 0.0)))):
             acc[nm + "_num"] += float((dev * wgt).sum())
             v = 0.0
             if m.nh:
@@ -271,7 +307,7 @@ def check(case, results):
         return viol, stats
     ne = tab.ngroups if tab else 0
     acc = {"steps": 0, "w": [], "null_steps": 0, "died": 0, "g_rd_num": 0.0, "g_rd_den": 0.0,
-           "sc_r_num": 0.0, "sc_r_den": 0.0, "sc_d_num": 0.0, "sc_d_den": 0.0,
+           "sc_r_num": 0.0, "sc_r_den": 0.0, "sc_d_num": 0.0, "sc_d_den": 0.0, "sc_m_num": 0.0, "sc_m_den": 0.0,
            "fn_mean_num": [0.0, 0.0], "fn_mean_den": [0.0, 0.0], "fn_var_num": [0.0, 0.0], "fn_var_den": [0.0, 0.0],
            "steps_from_negative_state_excluded": 0, "negative_entry_after_step": 0}
     if tab:
@@ -303,7 +339,7 @@ def check(case, results):
         if kind == "gillespie":
             analyse_gillespie(m, tab, T, X, st["tmax_e"] * ft, dr["done"], acc, viol, ctx)
         else:
-            analyse_tauleap(m, T, X, acc)
+            analyse_tauleap(m, T, X, acc, viol, ctx)
     N = acc["steps"]
     stats["engine_steps"] = N
     stats["nontrivial"] = 1 if N >= 50 else 0
@@ -341,6 +377,7 @@ def check(case, results):
                     break
     elif kind == "tauleap" and not viol:
         stats["tauleap_excluded_steps"] = acc["steps_from_negative_state_excluded"]
+        stats["tauleap_support_entries_checked"] = acc.get("support_entries_checked", 0)
         stats["tauleap_negative_after_step"] = acc["negative_entry_after_step"]
         if N >= 100:
             stats["cases_with_statistics"] = 1
@@ -376,7 +413,8 @@ def check(case, results):
                                                 "firing counts are not Poisson with mean propensity x time step" % (
                                                     "1,1,.." if ui == 0 else "1,2,3,..", zm, zv, N)))
             stats["g"] = {"sc_r_num": acc["sc_r_num"], "sc_r_den": acc["sc_r_den"],
-                          "sc_d_num": acc["sc_d_num"], "sc_d_den": acc["sc_d_den"]}
+                          "sc_d_num": acc["sc_d_num"], "sc_d_den": acc["sc_d_den"],
+                          "sc_m_num": acc["sc_m_num"], "sc_m_den": acc["sc_m_den"]}
             for ui in range(2):
                 stats["g"]["fnm%d_num" % ui] = acc["fn_mean_num"][ui]
                 stats["g"]["fnm%d_den" % ui] = acc["fn_mean_den"][ui]
@@ -398,7 +436,7 @@ def global_check(total):
             out.append({"class": "violation", "oracle": "C07.pooled-waiting-time",
                         "detail": "pooled mean of dt*a0_ref over %d Gillespie steps is %.6f (z=%.1f)" % (
                             g["w_n"], g["w_sum"] / g["w_n"], z)})
-    for nm, what in (("sc_r", "reaction"), ("sc_d", "diffusion")):
+    for nm, what in (("sc_r", "reaction"), ("sc_d", "diffusion"), ("sc_m", "drift-direction")):
         if g.get(nm + "_den", 0) > 100:
             z = g[nm + "_num"] / math.sqrt(g[nm + "_den"])
             info["pooled_tauleap_%s_scale_z" % what] = z
